@@ -484,6 +484,16 @@ func genTable(r *simrt.RNG, used map[string]bool, srs gpkgh.SRS, t tms20.TileMat
 		n = 1050 + r.Intn(1500) // now and then a table longer than the default page (1000 rows)
 		w.PageSize = []int{1000, 1000, 999, 1024, 512}[r.Intn(5)]
 	}
+	if r.Chance(0.015) && tb.GeomType != gpkgh.TPolygon && tb.GeomType != gpkgh.TMultiPolygon && tb.GeomType != gpkgh.TGeometry {
+		// row counts at round numbers: batch sizes, buffer sizes and limits are chosen there
+		n = []int{100, 128, 200, 250, 256, 500, 512, 1000, 1024, 1500, 2000, 2048}[r.Intn(12)]
+		if r.Chance(0.3) {
+			n += 1 - 2*r.Intn(2) // one more, one less
+		}
+		if r.Chance(0.5) {
+			w.PageSize = []int{1000, 500, 250, 100, 64}[r.Intn(5)]
+		}
+	}
 	fid := fidBase + int64(1+r.Intn(100))
 	for i := 0; i < n; i++ {
 		var row gpkgh.Row
@@ -1100,6 +1110,11 @@ func notePreTables(w *twork, p *prepared) {
 				m[t] = true
 			}
 			p.preTables[rel] = m
+			// a marker: whatever else the new file holds, this table can only be there if
+			// content of the old file survived
+			if err := gpkgh.AddMarker(tp); err != nil {
+				simh.Fatalf("toolsim: marking the pre-existing target %s: %v", tp, err)
+			}
 		}
 	}
 }
@@ -1177,8 +1192,15 @@ func verify(w *twork, p prepared, m modelResult) (*simh.Violation, int) {
 			if want[t] {
 				continue
 			}
-			if p.preTables[rel][t] {
-				return &simh.Violation{Class: "file/tables", Message: fmt.Sprintf("target for tile matrix %d still holds table %q of the pre-existing file (pre-existing content: %s, overwrite: %v)", id, t, w.Existing, w.Overwrite)}, files
+			if t == gpkgh.MarkerTable {
+				var others []string
+				for o := range p.preTables[rel] {
+					if have[o] && !want[o] {
+						others = append(others, o)
+					}
+				}
+				sort.Strings(others)
+				return &simh.Violation{Class: "file/tables", Message: fmt.Sprintf("target for tile matrix %d still holds content of the pre-existing file: the marker table written into it before the run, and of its tables %v (pre-existing content: %s, overwrite: %v)", id, others, w.Existing, w.Overwrite)}, files
 			}
 			if _, isFeatureTable := d.Tables[t]; isFeatureTable {
 				return &simh.Violation{Class: "file/tables", Message: fmt.Sprintf("target for tile matrix %d registers a feature table %q that the source does not have", id, t)}, files
